@@ -9,7 +9,7 @@ from typing import Any, Callable, Dict, List, Tuple
 
 from .. import e3, infra
 from .. import world  # noqa
-from ..realize import exec_source, PRELUDE
+from ..realize import exec_source, PRELUDE, clear_typing_caches
 
 import apischema
 from apischema import deserialize, serialize
@@ -257,6 +257,12 @@ class World:
                 return mod.followup()
             finally:
                 sys.modules.pop(mod.__name__, None)
+                import linecache
+
+                linecache.cache.pop(mod.__file__, None)
+                apischema.cache.reset()
+                world.purge_module(mod.__name__)
+                clear_typing_caches()
 
         return bodies, followup
 
